@@ -17,11 +17,12 @@ RULES = {
     'R8': 'a removed entry that is still allocated for parked iterators is invisible: where rm leaves the node in the search structure (hashtable, trie) it stores a removal marker first, and its own match, get, put and the iterator\'s choice of the next node all test that marker',
     'R9': 'an entry never moves to another node: no trie node\'s reference count, key or value is copied from another node (iterators hold node pointers)',
     'R10': 'exhaustion is a state of its own: the path of iter_next that ends the iteration (NULL after dropping the parked node) leaves at least one iterator field with a value iter_create does not give it, so that the next call does not start over',
+    'R11': 'a get between two steps of an iterator moves nothing: the lookup / get functions of the three implementations change no link, no node and no bookkeeping of the map (= C17.R12) - a chain reordered by a lookup makes the open iterator skip or repeat entries although nothing was added or removed',
     'R5': 'qb_map_foreach frees its iterator on every path; iter_create starts unparked or referenced',
     'R6': 'iter_create stores no unreferenced node pointer in the iterator: every node-pointer field is NULL, the map header (never freed), or referenced before the function returns',
     'R7': 'a node that iterators may be parked on stays linked while referenced: where the advance follows the parked node\'s own links (hashtable), the node is unlinked only at its last dereference (in the destroy function reached with refcount 0) or at map teardown',
 }
-FLOORS = {'R1': 6, 'R2': 3, 'R3': 2, 'R4': 6, 'R5': 2, 'R6': 4, 'R7': 2, 'R8': 9, 'R9': 1, 'R10': 3}
+FLOORS = {'R1': 6, 'R2': 3, 'R3': 2, 'R4': 6, 'R5': 2, 'R6': 4, 'R7': 2, 'R8': 9, 'R9': 1, 'R10': 3, 'R11': 6}
 
 IT = {
     'hashtable': dict(next='hashtable_iter_next', free='hashtable_iter_free', deref='hashtable_node_deref', node='hash_node',
@@ -54,6 +55,13 @@ def run(ctx):
     r8(ctx)
     r9(ctx)
     r10(ctx)
+    # R11 = C17.R12: a lookup made while an iterator is open changes nothing the iterator walks
+    from rules import c17
+    sub = type(ctx)(ctx.prog, ctx.prop, ctx.tier, ctx.depth)
+    c17.r12(sub)
+    for r in sub.results:
+        r['rule'] = 'R11'
+        ctx.results.append(r)
 
 
 def r1(ctx, name, m):
